@@ -90,6 +90,18 @@ func priorVariants(args [][]byte, f func(a [][]byte)) {
 			defer func() { recover() }()
 			f(v)
 		}()
+		// ... and once more with the alteration made IN PLACE, in the very buffer the observed call will be given
+		// (a server decoding every account's hash into one scratch buffer): a memo that remembers the caller's slice
+		// instead of its contents compares that buffer with itself and answers for what it held before
+		if len(args[i]) > 0 {
+			at := len(args[i]) / 2
+			args[i][at] ^= 0x5a
+			func() {
+				defer func() { recover() }()
+				f(args)
+			}()
+			args[i][at] ^= 0x5a
+		}
 	}
 }
 
